@@ -64,7 +64,9 @@ def gen_plan(rng, tier, run):
             # the process may have been started with stdout closed (`peltool ... >&-`)
             "stdout_closed": mode == "file" and rng.random() < 0.08,
             # crash-restart histories: after every faulted execution the same command is run again
-            "restart": mode == "json" and rng.random() < 0.25}
+            "restart": mode == "json" and rng.random() < 0.25,
+            # --file given as a bare relative name while -p points at a directory that holds ANOTHER log of that name
+            "p_and_f": mode == "file" and rng.random() < 0.1}
     if rng.random() < 0.25:
         plan["opts"].append("-P")
     n = rng.randint(1, 4) if mode == "json" else (2 if rng.random() < 0.15 else 1)   # file mode: -f may be given twice
@@ -77,6 +79,7 @@ def gen_plan(rng, tier, run):
     names = common.make_names(rng, recipes)
     if n >= 2 and rng.random() < 0.2:
         names[1] = names[0] + rng.choice([".pel", ".1", ".bak"])      # one name is a prefix of another
+    long_name = mode == "json" and rng.random() < 0.06
     for i, (r, nm) in enumerate(zip(recipes, names)):
         f = {"name": nm + (ext if ext and rng.random() < 0.7 else ""), "recipe": r}
         if rng.random() < 0.3:
@@ -99,6 +102,11 @@ def gen_plan(rng, tier, run):
         if mode == "json" and rng.random() < 0.3:
             f["pre_out"] = {"kind": rng.choice(["partial", "partial", "stale", "garbage", "empty"]), "cut": rng.randrange(1, 400),
                             "eid": "%08X" % (r["eid"] if rng.random() < 0.8 else pelgen.gen_id(rng))}
+    if long_name:
+        # a name at / near NAME_MAX: "<name>.<eid>.json" no longer fits into a directory entry
+        f0 = plan["files"][0]
+        f0["name"] = (f0["name"] + "_" + "x" * 255)[:rng.choice([255, 255, 250, 241])]
+        f0.pop("pre_out", None)
     return plan
 
 
@@ -134,6 +142,8 @@ def argv_of(plan):
             a += ["-o", "@/OUT"]
         if plan.get("ext"):
             a += ["-e", plan["ext"]]
+    elif plan.get("p_and_f"):
+        a = ["-p", "sub", "-f", plan["files"][0]["name"], "-c"]          # cwd is the directory holding the file
     else:
         a = []
         for f in plan["files"][1:]:
@@ -150,8 +160,13 @@ def run_once(w, plan, originals, faults, reference=False):
     else:
         materialise(w, plan, originals)
         argv = argv_of(plan)
+    if plan.get("p_and_f"):
+        # the -p directory holds a different log under the same name
+        other = pelgen.gen_pel(random.Random(plan["fseed"] + 11), eid=0x0D1FFE12, want_class="serviceable", max_sections=1)
+        w.put("D/sub/" + plan["files"][0]["name"], pelgen.build(other))
     res = w.run(argv, order=plan["order"], faults=faults, file_bufsize=plan["bufsize"],
-                stdout_bufsize=plan["stdout_bufsize"], stdout_closed=bool(plan.get("stdout_closed")))
+                stdout_bufsize=plan["stdout_bufsize"], stdout_closed=bool(plan.get("stdout_closed")),
+                cwd="D" if plan.get("p_and_f") else None)
     snap = w.snapshot()
     return res, snap
 
@@ -306,6 +321,8 @@ def execute(plan):
             bump("plans_with_fake_plugins")
         if plan.get("stdout_closed"):
             bump("stdout_closed_at_startup")
+        if any(len(f["name"]) > 240 for f in plan["files"]):
+            bump("name_near_NAME_MAX")
         w.fresh_per_run = bool(plan.get("fresh"))
         w.path_style = plan.get("path_style", "abs")
         w.rel_dot = bool(plan.get("fresh"))
@@ -327,6 +344,8 @@ def execute(plan):
                 materialise(w, dict(plan, files=[dict(x, pre_out=None) for x in plan["files"]]), originals)
                 rr = w.run(["-f", "@/D/" + f["name"]] + list(plan["opts"]), stdout_bufsize=plan["stdout_bufsize"],
                            stdout_closed=bool(plan.get("stdout_closed")))
+                if plan.get("p_and_f"):
+                    bump("p_and_relative_f")
                 ref_outputs[f["name"]] = rr.stdout_delivered
             if len(plan["files"]) > 1:
                 bump("file_mode_two_inputs")
